@@ -526,4 +526,222 @@ theorem ahead_entries (pr : List UInt8 → Option R) (kvs : List (List UInt8 × 
     refine ahead_of_lexeme _ (47 :: kb) hn hsl (by simp) (by simp [kwStream]) ?_
     intro hi; simp [isInteger, allDigits, isDigit] at hi
 
+
+/-! ### containers: the main induction -/
+
+open PdfSyntax (WF WFL WFE vdepth vdepthL vdepthE need needL needE keysOf)
+
+theorem dictInsert_append (acc : Dict R) (k : List UInt8) (v : Prim R) (h : k ∉ keysOf acc) :
+    dictInsert acc k v = acc ++ [(k, v)] := by
+  induction acc with
+  | nil => rfl
+  | cons kv acc ih =>
+    obtain ⟨k', v'⟩ := kv
+    simp [keysOf] at h
+    have hne : ¬ k' = k := fun e => h.1 e.symm
+    simp only [dictInsert, hne, if_false, List.cons_append]
+    rw [ih (by simpa [keysOf] using h.2)]
+
+mutual
+
+theorem parseCtx_spells (env : Env R) (hd : env.decrypt = none) (v : Prim R) :
+    ∀ (txt : List UInt8), Spells env.parseReal v txt → WF v → ∀ {buf : Buf}, buf.size ≤ 2147483647 →
+      ∀ (g rest : List UInt8) (pos fuel : Nat) (ctx : Option (Nat × Nat)) (depth : Nat), Gap g →
+      Suffix buf pos (g ++ txt ++ rest) → (needsBnd v = true → Bnd rest) → Ahead buf (pos + g.length + txt.length) →
+      need v ≤ fuel → vdepth v ≤ depth →
+      parseCtx env buf fuel pos ctx Flags.any depth = .ok (v, pos + g.length + txt.length) := by
+  intro txt hsp hwf buf hsz g rest pos fuel ctx depth hg hs hb hah hfuel hdepth
+  have hend : pos + g.length + txt.length ≤ buf.size := by
+    have := hs.size_eq; simp at this; omega
+  cases v with
+  | null =>
+    obtain ⟨f, rfl⟩ : ∃ f, fuel = f + 2 := ⟨fuel - 2, by simp [need] at hfuel; omega⟩
+    simp only [Spells] at hsp; subst hsp
+    simp only [parseCtx, parseInner_null env g rest pos f ctx depth hg hs (hb rfl)]
+    rfl
+  | bool b =>
+    obtain ⟨f, rfl⟩ : ∃ f, fuel = f + 2 := ⟨fuel - 2, by simp [need] at hfuel; omega⟩
+    simp only [Spells] at hsp; subst hsp
+    simp only [parseCtx, parseInner_bool env b g rest pos f ctx depth hg hs (hb rfl)]
+    rfl
+  | int i =>
+    obtain ⟨f, rfl⟩ : ∃ f, fuel = f + 2 := ⟨fuel - 2, by simp [need] at hfuel; omega⟩
+    simp only [Spells] at hsp
+    simp only [parseCtx, parseInner_int env txt i g rest pos f ctx depth hg hsp.1 hsp.2.1 hsp.2.2 hs (hb rfl)
+      (intFollowOK_of_ahead hend hah)]
+  | real r =>
+    obtain ⟨f, rfl⟩ : ∃ f, fuel = f + 2 := ⟨fuel - 2, by simp [need] at hfuel; omega⟩
+    simp only [Spells] at hsp
+    simp only [parseCtx, parseInner_real env txt r g rest pos f ctx depth hg hsp.1 hsp.2 hs (hb rfl)]
+  | str s =>
+    obtain ⟨f, rfl⟩ : ∃ f, fuel = f + 2 := ⟨fuel - 2, by simp [need] at hfuel; omega⟩
+    simp only [Spells] at hsp
+    rcases hsp with ⟨body, rfl, hl⟩ | ⟨body, rfl, hl⟩
+    · simp only [parseCtx, parseInner_lit env hd body s g rest pos f ctx depth hg hl hsz hs]
+    · simp only [parseCtx, parseInner_hex env hd body s g rest pos f ctx depth hg hl hsz hs]
+  | name s =>
+    obtain ⟨f, rfl⟩ : ∃ f, fuel = f + 2 := ⟨fuel - 2, by simp [need] at hfuel; omega⟩
+    simp only [Spells] at hsp
+    obtain ⟨body, rfl, hnb⟩ := hsp
+    simp only [WF] at hwf
+    simp only [parseCtx, parseInner_name env body s g rest pos f ctx depth hg hnb hwf hs (hb rfl)]
+  | ref id gen =>
+    obtain ⟨f, rfl⟩ : ∃ f, fuel = f + 2 := ⟨fuel - 2, by simp [need] at hfuel; omega⟩
+    simp only [Spells] at hsp
+    obtain ⟨a, g1, b, g2, rfl, ha, hbt, hg1, hg1ne, hg2, hg2ne, hid, hgen⟩ := hsp
+    simp only [parseCtx, parseInner_ref env a g1 b g2 id gen g rest pos f ctx depth hg ha hbt hg1 hg1ne hg2 hg2ne hid hgen
+      hs (hb rfl)]
+  | stream info inner => simp [Spells] at hsp
+  | arr xs =>
+    obtain ⟨f, rfl⟩ : ∃ f, fuel = f + 2 := ⟨fuel - 2, by simp [need] at hfuel; omega⟩
+    simp only [Spells] at hsp
+    obtain ⟨g0, r, rfl, hg0, hr⟩ := hsp
+    simp only [WF] at hwf
+    simp only [need] at hfuel
+    simp only [vdepth] at hdepth
+    obtain ⟨hn, hsl⟩ := next_delim g 91 (g0 ++ r ++ rest) pos hg (by simpa using hs) (by decide) (by decide) (by decide) (by simp)
+    have hs2 : Suffix buf (pos + g.length + 1) (g0 ++ r ++ rest) := by
+      have := Suffix.drop (a := g ++ [91]) (s := g0 ++ r ++ rest) (by simpa using hs)
+      simpa [Nat.add_assoc] using this
+    have harr := parseArray_spells env hd xs r hr hwf hsz g0 rest (pos + g.length + 1) f ctx (depth - 1) [] hg0 hs2
+      (by
+        have hs3 : Suffix buf (pos + g.length + 1 + g0.length + r.length) rest := by
+          have := Suffix.drop (a := g0 ++ r) (by simpa using hs2)
+          simpa [Nat.add_assoc] using this
+        have : pos + g.length + (91 :: g0 ++ r).length = pos + g.length + 1 + g0.length + r.length := by simp; omega
+        rw [this] at hah; exact hah)
+      (by omega) (by omega)
+    have hint : isInteger [91] = false := by decide
+    have hreal : realNumber [91] = none := by decide
+    have e1 : (([91] : List UInt8) == [60, 60]) = false := by decide
+    have e2 : ((([91] : List UInt8).head?) == some 47) = false := by decide
+    have e3 : (([91] : List UInt8) == [91]) = true := by decide
+    have c1 : check Flags.any Flags.array = .ok () := by decide
+    have hd0 : (depth == 0) = false := by simp; omega
+    simp only [parseCtx, parseInner, remainingStart_ok hs.le, hn, Out.bind_ok, hsl, e1, e2, e3, hint, hreal,
+      Bool.false_eq_true, if_false, if_true, c1, hd0, harr]
+    simp; omega
+  | dict kvs =>
+    obtain ⟨f, rfl⟩ : ∃ f, fuel = f + 2 := ⟨fuel - 2, by simp [need] at hfuel; omega⟩
+    simp only [Spells] at hsp
+    obtain ⟨g0, r, rfl, hg0, hr⟩ := hsp
+    simp only [WF] at hwf
+    simp only [need] at hfuel
+    simp only [vdepth] at hdepth
+    obtain ⟨hn, hsl⟩ := next_double g 60 (g0 ++ r ++ rest) pos hg (by simpa using hs) (Or.inl rfl)
+    have hs2 : Suffix buf (pos + g.length + 2) (g0 ++ r ++ rest) := by
+      have := Suffix.drop (a := g ++ [60, 60]) (s := g0 ++ r ++ rest) (by simpa using hs)
+      simpa [Nat.add_assoc] using this
+    have hpos : pos + g.length + (60 :: 60 :: g0 ++ r).length = pos + g.length + 2 + g0.length + r.length := by simp; omega
+    rw [hpos] at hah hend
+    have hdict := parseDict_spells env hd kvs r hr hwf.1 hsz g0 rest (pos + g.length + 2) f ctx (depth - 1) [] hg0 hs2
+      hah (by simpa [keysOf] using hwf.2) (by simp [keysOf]) (by omega) (by omega)
+    obtain ⟨pk, hpk, hpks⟩ := dictFollowOK_of_ahead hend hah
+    have hpks' : (slice buf pk.1 pk.2 == kwStream) = false := by simpa using hpks
+    have e1 : (([60, 60] : List UInt8) == [60, 60]) = true := by decide
+    have c1 : check Flags.any Flags.dict = .ok () := by decide
+    have hd0 : (depth == 0) = false := by simp; omega
+    simp only [parseCtx, parseInner, remainingStart_ok hs.le, hn, Out.bind_ok, hsl, e1, if_true, c1, hd0,
+      Bool.false_eq_true, if_false, hdict, hpk, hpks', List.nil_append, hpos]
+
+theorem parseArray_spells (env : Env R) (hd : env.decrypt = none) (xs : List (Prim R)) :
+    ∀ (r : List UInt8), SpellsElems env.parseReal xs r → WFL xs → ∀ {buf : Buf}, buf.size ≤ 2147483647 →
+      ∀ (g rest : List UInt8) (pos fuel : Nat) (ctx : Option (Nat × Nat)) (depth : Nat) (acc : List (Prim R)), Gap g →
+      Suffix buf pos (g ++ r ++ rest) → Ahead buf (pos + g.length + r.length) →
+      needL xs ≤ fuel → vdepthL xs ≤ depth →
+      parseArray env buf fuel pos ctx depth acc = .ok (.arr (acc.reverse ++ xs), pos + g.length + r.length) := by
+  intro r hr hwf buf hsz g rest pos fuel ctx depth acc hg hs hah hfuel hdepth
+  cases xs with
+  | nil =>
+    obtain ⟨f, rfl⟩ : ∃ f, fuel = f + 1 := ⟨fuel - 1, by simp [needL] at hfuel; omega⟩
+    simp only [SpellsElems] at hr; subst hr
+    obtain ⟨hn, hsl⟩ := next_delim g 93 rest pos hg (by simpa using hs) (by decide) (by decide) (by decide) (by simp)
+    simp only [parseArray, peek_ok hn, Out.bind_ok, hsl, beq_self_eq_true, if_true, hn]
+    simp
+  | cons x xs =>
+    obtain ⟨f, rfl⟩ : ∃ f, fuel = f + 1 := ⟨fuel - 1, by simp [needL] at hfuel; omega⟩
+    simp only [SpellsElems] at hr
+    obtain ⟨tx, g', r', rfl, hx, hg', hr', hbnd⟩ := hr
+    simp only [WFL] at hwf
+    simp only [needL] at hfuel
+    simp only [vdepthL] at hdepth
+    have hne : g' ++ r' ≠ [] := by simp [spellsElems_ne_nil env.parseReal xs r' hr']
+    have hs1 : Suffix buf pos (g ++ tx ++ (g' ++ r' ++ rest)) := by simpa using hs
+    obtain ⟨k, t, hk, hn, hsl, hf, _⟩ := spells_first env.parseReal x tx hx g (g' ++ r' ++ rest) pos hg hs1
+      (fun hb => by simpa using bnd_append (t := rest) (hbnd hb) hne)
+    have hs2 : Suffix buf (pos + g.length + tx.length) (g' ++ r' ++ rest) := by
+      have := Suffix.drop (a := g ++ tx) (by simpa using hs1)
+      simpa [Nat.add_assoc] using this
+    have hx' := parseCtx_spells env hd x tx hx hwf.1 hsz g (g' ++ r' ++ rest) pos f ctx depth hg hs1
+      (fun hb => by simpa using bnd_append (t := rest) (hbnd hb) hne)
+      (ahead_elems env.parseReal xs r' hr' g' rest _ hg' hs2) (by omega) (by omega)
+    have hpos : pos + g.length + (tx ++ g' ++ r').length = pos + g.length + tx.length + g'.length + r'.length := by
+      simp; omega
+    rw [hpos] at hah
+    have hxs := parseArray_spells env hd xs r' hr' hwf.2 hsz g' rest (pos + g.length + tx.length) f ctx depth (x :: acc)
+      hg' hs2 hah (by omega) (by omega)
+    have hne93 : (t == [93]) = false := by simpa using hf.neClose
+    simp only [parseArray, peek_ok hn, Out.bind_ok, hsl, hne93, Bool.false_eq_true, if_false, hx', hxs, hpos]
+    simp
+
+theorem parseDict_spells (env : Env R) (hd : env.decrypt = none) (kvs : List (List UInt8 × Prim R)) :
+    ∀ (r : List UInt8), SpellsEntries env.parseReal kvs r → WFE kvs → ∀ {buf : Buf}, buf.size ≤ 2147483647 →
+      ∀ (g rest : List UInt8) (pos fuel : Nat) (ctx : Option (Nat × Nat)) (depth : Nat) (acc : Dict R), Gap g →
+      Suffix buf pos (g ++ r ++ rest) → Ahead buf (pos + g.length + r.length) →
+      (keysOf kvs).Nodup → (∀ k ∈ keysOf kvs, k ∉ keysOf acc) →
+      needE kvs ≤ fuel → vdepthE kvs ≤ depth →
+      parseDict env buf fuel pos ctx depth acc = .ok (acc ++ kvs, pos + g.length + r.length) := by
+  intro r hr hwf buf hsz g rest pos fuel ctx depth acc hg hs hah hnd hdisj hfuel hdepth
+  cases kvs with
+  | nil =>
+    obtain ⟨f, rfl⟩ : ∃ f, fuel = f + 1 := ⟨fuel - 1, by simp [needE] at hfuel; omega⟩
+    simp only [SpellsEntries] at hr; subst hr
+    obtain ⟨hn, hsl⟩ := next_double g 62 rest pos hg (by simpa using hs) (Or.inr rfl)
+    have e1 : ((([62, 62] : List UInt8).head?) == some 47) = false := by decide
+    simp only [parseDict, hn, Out.bind_ok, hsl, e1, Bool.false_eq_true, if_false, beq_self_eq_true, if_true]
+    simp
+  | cons kv kvs =>
+    obtain ⟨k, v⟩ := kv
+    obtain ⟨f, rfl⟩ : ∃ f, fuel = f + 1 := ⟨fuel - 1, by simp [needE] at hfuel; omega⟩
+    simp only [SpellsEntries] at hr
+    obtain ⟨kb, g1, tv, g2, r', rfl, hnb, hg1, hb1, hv, hg2, hr', hbnd⟩ := hr
+    simp only [WFE] at hwf
+    simp only [needE] at hfuel
+    simp only [vdepthE] at hdepth
+    obtain ⟨hun, hreg⟩ := nameBody_spec kb k hnb
+    have hne1 : g1 ++ tv ≠ [] := by simp [spells_ne_nil env.parseReal v tv hv]
+    have hne2 : g2 ++ r' ≠ [] := by simp [spellsEntries_ne_nil env.parseReal kvs r' hr']
+    have hs1 : Suffix buf pos (g ++ (47 :: kb) ++ (g1 ++ tv ++ g2 ++ r' ++ rest)) := by simpa using hs
+    obtain ⟨hn, hsl⟩ := next_name g kb _ pos hg hs1 hreg (by simpa using bnd_append (t := g2 ++ r' ++ rest) hb1 hne1)
+    have hs2 : Suffix buf (pos + g.length + (47 :: kb).length) (g1 ++ tv ++ (g2 ++ r' ++ rest)) := by
+      have := Suffix.drop (a := g ++ (47 :: kb)) (by simpa using hs1)
+      simpa [Nat.add_assoc] using this
+    have hs3 : Suffix buf (pos + g.length + (47 :: kb).length + g1.length + tv.length) (g2 ++ r' ++ rest) := by
+      have := Suffix.drop (a := g1 ++ tv) (by simpa using hs2)
+      simpa [Nat.add_assoc] using this
+    have hv' := parseCtx_spells env hd v tv hv hwf.2.1 hsz g1 (g2 ++ r' ++ rest) (pos + g.length + (47 :: kb).length) f ctx
+      depth hg1 hs2 (fun hb => by simpa using bnd_append (t := rest) (hbnd hb) hne2)
+      (ahead_entries env.parseReal kvs r' hr' g2 rest _ hg2 hs3) (by omega) (by omega)
+    have hpos : pos + g.length + (47 :: kb ++ g1 ++ tv ++ g2 ++ r').length =
+        pos + g.length + (47 :: kb).length + g1.length + tv.length + g2.length + r'.length := by
+      simp; omega
+    rw [hpos] at hah
+    simp only [keysOf, List.map_cons, List.nodup_cons] at hnd
+    have hk : k ∉ keysOf acc := hdisj k (by simp [keysOf])
+    have hkvs := parseDict_spells env hd kvs r' hr' hwf.2.2 hsz g2 rest
+      (pos + g.length + (47 :: kb).length + g1.length + tv.length) f ctx depth (acc ++ [(k, v)]) hg2 hs3 hah hnd.2
+      (by
+        intro k' hk' hc
+        simp [keysOf] at hc
+        rcases hc with hc | hc
+        · exact hdisj k' (by simp [keysOf] at hk' ⊢; exact Or.inr hk') (by simpa [keysOf] using hc)
+        · subst hc; exact hnd.1 (by simpa [keysOf] using hk'))
+      (by omega) (by omega)
+    have e1 : (((47 :: kb : List UInt8).head?) == some 47) = true := by simp
+    have hdn : decodeName ((47 :: kb).drop 1) = .ok k := by simp [decodeName, hun, hwf.1]
+    simp only [parseDict, hn, Out.bind_ok, hsl, e1, if_true, hdn, hv', dictInsert_append acc k v hk, hkvs, hpos]
+    simp
+
+end
+
 end PdfLex
